@@ -1,0 +1,60 @@
+//go:build verif
+
+// Export shim for the external verification harness (/verif, properties C33/C35). Compiled only
+// with the build tag `verif`. Wrappers around the unexported pending-request getters that the
+// Approve* methods themselves use; no contract logic lives here.
+
+package side_chain_manager
+
+import "github.com/polynetwork/poly/native"
+
+// VerifGetSideChainApply returns the pending registration request of chainID (nil if none).
+func VerifGetSideChainApply(native *native.NativeService, chainID uint64) (*SideChain, error) {
+	return getSideChainApply(native, chainID)
+}
+
+// VerifGetUpdateSideChain returns the pending update request of chainID (nil if none).
+func VerifGetUpdateSideChain(native *native.NativeService, chainID uint64) (*SideChain, error) {
+	return getUpdateSideChain(native, chainID)
+}
+
+// VerifQuitSideChainRequested reports whether a quit request of chainID is pending, as
+// ApproveQuitSideChain decides it.
+func VerifQuitSideChainRequested(native *native.NativeService, chainID uint64) bool {
+	return getQuitSideChain(native, chainID) == nil
+}
+
+// ---- property C17 part B (storage-key injectivity): thin wrappers of the unexported put/get helpers,
+// used as black-box key constructors. No logic.
+
+func VerifPutSideChainApply(native *native.NativeService, sideChain *SideChain) error {
+	return putSideChainApply(native, sideChain)
+}
+
+func VerifPutUpdateSideChain(native *native.NativeService, sideChain *SideChain) error {
+	return putUpdateSideChain(native, sideChain)
+}
+
+func VerifPutQuitSideChain(native *native.NativeService, chainID uint64) error {
+	return putQuitSideChain(native, chainID)
+}
+
+func VerifPutContractBind(native *native.NativeService, redeemChainID, contractChainID uint64, redeemKey, contractAddress []byte, cver uint64) error {
+	return putContractBind(native, redeemChainID, contractChainID, redeemKey, contractAddress, cver)
+}
+
+func VerifPutBindSignInfo(native *native.NativeService, message []byte, info *BindSignInfo) error {
+	return putBindSignInfo(native, message, info)
+}
+
+func VerifGetBindSignInfo(native *native.NativeService, message []byte) (*BindSignInfo, error) {
+	return getBindSignInfo(native, message)
+}
+
+func VerifPutBtcTxParam(native *native.NativeService, redeemKey []byte, redeemChainID uint64, detail *BtcTxParamDetial) error {
+	return putBtcTxParam(native, redeemKey, redeemChainID, detail)
+}
+
+func VerifPutBtcRedeemScript(native *native.NativeService, redeemScriptKey string, redeemScript []byte, redeemChainID uint64) error {
+	return putBtcRedeemScript(native, redeemScriptKey, redeemScript, redeemChainID)
+}
